@@ -108,23 +108,64 @@ func (c *Ctx) ruleAckResolution(prefix string) {
 		return
 	}
 	invs := c.storedCallbackInvocations(h)
-	ru1.Anchor(len(invs) >= 2, "invocations of the stored ack.Callback (acknowledged and expired)")
-	for i, inv := range invs {
-		f := inv.Instr.Parent()
-		c.R.Fn(c.fname(f))
-		key := fmt.Sprintf("stored-callback invocation #%d in %s", i, c.fname(f))
-		var won *core.Call
-		for _, d := range core.CallsTo(f, h.del) {
-			if depReaches(inv.Common.Value, func(v ssa.Value) bool { return v == d.Value() }) {
-				won = d
+	ru1.Anchor(len(invs) >= 1, "invocations of the stored ack.Callback")
+	isInv := func(cl *core.Call) bool {
+		for _, inv := range invs {
+			if inv.Instr == cl.Instr {
+				return true
 			}
 		}
-		if won == nil {
-			ru1.Fail(key, c.whereI(inv.Instr), "the callback invoked does not come from the entry removed by Hash.Delete: two resolvers (ack and expiry, or two acks) can both fire it")
+		return false
+	}
+	// resolvers: the innermost functions that both remove an entry and invoke a stored callback (through helpers or not)
+	resolvers := c.deepestReaching("wasp/ack", isAny(h.del), isInv)
+	ru1.Anchor(len(resolvers) >= 2, "functions of wasp/ack that remove an entry from the table and run its callback (acknowledge and expire)")
+	interesting := func(cl *core.Call) bool {
+		return isInv(cl) || cl.Is(h.del, h.get, h.put, h.listInsert, h.listDelete, h.listExpire)
+	}
+	resPaths := map[*ssa.Function][]*core.Path{}
+	for _, f := range resolvers {
+		c.R.Fn(c.fname(f))
+		paths, err := c.pathsInlined(f, core.PathOpts{}, interesting, nil)
+		if err != nil {
+			ru1.Undecided("paths of "+c.fname(f), c.whereF(f), err.Error())
 			continue
 		}
-		okv := extractOf(won, 1)
-		ru1.Check(okv != nil && hasControl(inv.Instr.Block(), okv, true), key, c.whereI(inv.Instr), "only on the ok branch of the winning Delete", "the callback is reachable where Hash.Delete did not report ok")
+		resPaths[f] = paths
+		ru1.Evals(len(paths))
+		key := "stored-callback invocations reached from " + c.fname(f)
+		bad, n := "", 0
+		var at ssa.Instruction
+		for _, pa := range paths {
+			calls := pa.Calls()
+			for _, pc := range calls {
+				if !isInv(pc.Call) {
+					continue
+				}
+				n++
+				// the winning Delete: the last one before the invocation
+				var won *core.PathCall
+				for k := range calls {
+					if calls[k].Seq < pc.Seq && calls[k].Is(h.del) {
+						won = &calls[k]
+					}
+				}
+				switch {
+				case won == nil || !depReaches(pc.Common.Value, func(v ssa.Value) bool { return v == won.Value() }):
+					bad, at = "the callback invoked does not come from the entry removed by Hash.Delete: two resolvers (ack and expiry, or two acks) can both fire it", pc.Instr
+				default:
+					okv := extractOf(won.Call, 1)
+					if val, known := branchOn(pa, okv, pc.Seq); okv == nil || !known || !val {
+						bad, at = "the callback is reachable where Hash.Delete did not report ok", pc.Instr
+					}
+				}
+			}
+		}
+		if at == nil {
+			ru1.Check(n > 0, key, c.whereF(f), "only after the winning Delete reported ok, with the callback of the removed entry", "no path invokes a stored callback")
+		} else {
+			ru1.Fail(key, c.whereI(at), bad)
+		}
 	}
 	for _, f := range c.ackFuncs(h) {
 		for i, ins := range core.CallsTo(f, h.listInsert) {
@@ -176,78 +217,115 @@ func (c *Ctx) ruleAckResolution(prefix string) {
 	}
 
 	ru2 := c.R.Rule(prefix+"-R2", "once Hash.Delete has removed an entry, every path invokes its callback exactly once (no path leaves an entry removed but unresolved)", "E1 paths from the winning Delete", 2)
-	for _, f := range c.ackFuncs(h) {
-		for i, d := range core.CallsTo(f, h.del) {
-			key := fmt.Sprintf("paths after winning Delete #%d in %s", i, c.fname(f))
-			okv := extractOf(d, 1)
-			paths, err := core.EnumPaths(f, core.PathOpts{Start: d.Instr.Block(), Stop: func(b *ssa.BasicBlock) bool { return b == d.Instr.Block() }})
-			if err != nil || okv == nil {
-				ru2.Undecided(key, c.whereI(d.Instr), fmt.Sprint("cannot enumerate / no ok result: ", err))
-				continue
-			}
-			ru2.Evals(len(paths))
-			bad, n := "", 0
-			for _, pa := range paths {
-				val, known := false, false
-				for _, cd := range pa.Conds {
-					if cd.V == okv {
-						val, known = cd.Val, true
-					}
+	for _, f := range resolvers {
+		key := "paths after a winning Delete in " + c.fname(f)
+		paths := resPaths[f]
+		ru2.Evals(len(paths))
+		bad, n := "", 0
+		var at ssa.Instruction
+		for _, pa := range paths {
+			calls := pa.Calls()
+			for k, d := range calls {
+				if !d.Is(h.del) {
+					continue
 				}
+				okv := extractOf(d.Call, 1)
+				if okv == nil {
+					bad, at = "the ok result of Hash.Delete is discarded", d.Instr
+					continue
+				}
+				val, known := branchOn(pa, okv, len(pa.Instrs()))
 				if !known || !val {
 					continue
 				}
 				n++
 				cnt := 0
-				for _, pc := range pa.Calls() {
-					for _, inv := range invs {
-						if pc.Instr == inv.Instr {
-							cnt++
-						}
+				for _, pc := range calls[k+1:] {
+					if pc.Is(h.del) {
+						break
+					}
+					if isInv(pc.Call) {
+						cnt++
 					}
 				}
 				if cnt != 1 {
-					bad = fmt.Sprintf("after the entry was removed its callback runs %d time(s) on path %s: the exchange is removed but never resolved (or resolved twice)", cnt, fmtPath(pa, c.P))
+					bad, at = fmt.Sprintf("after the entry was removed its callback runs %d time(s) on path %s: the exchange is removed but never resolved (or resolved twice)", cnt, fmtPath(pa, c.P)), d.Instr
 				}
 			}
-			ru2.Check(bad == "" && n > 0, key, c.whereI(d.Instr), fmt.Sprintf("%d winning path(s), each resolves the entry exactly once", n), bad)
+		}
+		if at == nil {
+			ru2.Check(n > 0, key, c.whereF(f), fmt.Sprintf("%d winning path(s), each resolves the entry exactly once", n), "no path on which Hash.Delete reports ok")
+		} else {
+			ru2.Fail(key, c.whereI(at), bad)
 		}
 	}
 
 	ru5 := c.R.Rule(prefix+"-R5", "an entry is resolved as acknowledged (expired=false) only where the expected packet type stored with it equals the received packet's Type(); resolved as expired (expired=true) only from the expiry sweep", "E1 path atoms", 2)
-	for i, inv := range invs {
-		f := inv.Instr.Parent()
-		key := fmt.Sprintf("cause passed by stored-callback invocation #%d in %s", i, c.fname(f))
-		k, isConst := inv.Common.Args[0].(*ssa.Const)
-		if !isConst {
-			ru5.Undecided(key, c.whereI(inv.Instr), "the expired flag is not a constant")
-			continue
-		}
-		expired := k.Value != nil && k.Value.String() == "true"
-		if expired {
-			ok := len(core.CallsTo(f, h.listExpire)) > 0 && depReachesCallTo(inv.Common.Value, h.del)
-			ru5.Check(ok, key, c.whereI(inv.Instr), "expired=true only in the function that drains expiration.List.Expire", "an entry is resolved as expired outside the expiry sweep")
-			continue
-		}
-		// some controlling condition must be state == pkt.Type() (true)
-		ok := false
-		for _, cc := range controllingConds(inv.Instr.Block(), nil) {
-			a := orderAtom(cc.cond, false)
-			if a.kind != "equality" {
-				continue
+	pktType := c.P.IfaceMethod(pkgPacket, "Packet", "Type")
+	ru5.Anchor(pktType != nil, "packet.Packet.Type")
+	fromTable := func(v ssa.Value) bool {
+		return depReaches(v, func(x ssa.Value) bool {
+			cv, ok := x.(*ssa.Call)
+			return ok && core.CallOf(cv).Is(h.get, h.del)
+		})
+	}
+	fromType := func(v ssa.Value) bool {
+		return depReaches(v, func(x ssa.Value) bool {
+			cv, ok := x.(*ssa.Call)
+			return ok && pktType != nil && core.CallOf(cv).Is(pktType)
+		})
+	}
+	for _, f := range resolvers {
+		key := "cause passed to the stored callback from " + c.fname(f)
+		bad, n := "", 0
+		var at ssa.Instruction
+		for _, pa := range resPaths[f] {
+			calls := pa.Calls()
+			for _, pc := range calls {
+				if !isInv(pc.Call) {
+					continue
+				}
+				n++
+				k, isConst := pa.Resolve(pc.Common.Args[0]).(*ssa.Const)
+				if !isConst {
+					bad, at = "the expired flag is not a constant on this path", pc.Instr
+					continue
+				}
+				if k.Value != nil && k.Value.String() == "true" {
+					swept := false
+					for _, o := range calls {
+						if o.Seq < pc.Seq && o.Is(h.listExpire) {
+							swept = true
+						}
+					}
+					if !swept {
+						bad, at = "an entry is resolved as expired outside the expiry sweep", pc.Instr
+					}
+					continue
+				}
+				ok := false
+				for _, d := range decisions(pa) {
+					bo, isb := d.Cond.(*ssa.BinOp)
+					if !isb || d.Seq > pc.Seq || (bo.Op != token.EQL && bo.Op != token.NEQ) {
+						continue
+					}
+					if held := d.Val == (bo.Op == token.EQL); !held {
+						continue
+					}
+					if (fromTable(bo.X) && fromType(bo.Y)) || (fromTable(bo.Y) && fromType(bo.X)) {
+						ok = true
+					}
+				}
+				if !ok {
+					bad, at = "an entry can be resolved as acknowledged by a packet of the wrong type", pc.Instr
+				}
 			}
-			held := cc.pol
-			if bo, isb := cc.cond.(*ssa.BinOp); isb && bo.Op == token.NEQ {
-				held = !cc.pol
-			}
-			lt, rt := core.Term(a.lhs), core.Term(a.rhs)
-			isState := func(s string) bool { return stringsContains(s, ".state") }
-			isType := func(s string) bool { return stringsContains(s, "Packet).Type(") }
-			if held && ((isState(lt) && isType(rt)) || (isState(rt) && isType(lt))) {
-				ok = true
-			}
 		}
-		ru5.Check(ok, key, c.whereI(inv.Instr), "guarded by stored expected type == received Type()", "an entry can be resolved as acknowledged by a packet of the wrong type")
+		if at == nil {
+			ru5.Check(n > 0, key, c.whereF(f), "acknowledged only under stored expected type == received Type(); expired only from the sweep", "no path invokes a stored callback")
+		} else {
+			ru5.Fail(key, c.whereI(at), bad)
+		}
 	}
 }
 
